@@ -48,6 +48,10 @@ def rand_rules(rng):
     return rules
 
 
+SCHEMA_PRESETS = ["standard", "standard-no-context", "standard-context", "standard-base", "standard-base-context", "standard-base-prerelease", "standard-base-prerelease-context",
+                  "standard-base-prerelease-post", "standard-base-prerelease-post-context", "standard-base-prerelease-post-dev", "standard-base-prerelease-post-dev-context"]
+
+
 def gen_case(rng):
     """-> dict(base_argv (source + overrides), flow_opts argv, stdin, opts, rules)"""
     src_stdin = rng.random() < 0.3
@@ -112,6 +116,9 @@ def gen_case(rng):
     rules = rand_rules(rng)
     if rules is not None:
         fopts += ["--branch-rules", F.rules_to_ron(rules)]
+    if rng.random() < 0.3:
+        # "for every ... flow option": the schema decides what is printed, never which parts flow derives
+        fopts += ["--schema", rng.choice(SCHEMA_PRESETS)]
     return dict(common=common, fopts=fopts, stdin=stdin, opts=opts, rules=rules, hlen=hlen, big_distance=big_distance)
 
 
